@@ -133,6 +133,9 @@ def witnesses():
                                                    schedule=[["start", 0], ["next", 0], ["start", 1], ["next", 1], ["next", 0], ["drain", 1], ["drain", 0]]),
         "rule-query-second-evaluation-empty": dict(base, pattern="rule", gen=False, sequential=True,
                                                    schedule=[["start", 0], ["drain", 0], ["start", 0], ["drain", 1]]),
+        "rule-query-after-abandoned-evaluation": dict(base, pattern="rule", gen=True, sequential=True, rule_kind="next",
+                                                      schedule=[["start", 0], ["next", 0], ["next", 0], ["next", 0], ["close", 0],
+                                                                ["start", 0], ["drain", 1]]),
     }
 
 
@@ -342,7 +345,7 @@ def run(spec, ctx):
         if shared_live:
             key = "live-iterators-sharing-a-variable"
         elif spec["pattern"] == "rule" and n_it >= 2:
-            key = "rule-query-second-evaluation-empty"
+            key = "rule-query-second-evaluation-empty"      # fixed in the repository: not listed, so a VIOLATION again
         return {"status": "fail", "kind": "schedule-dependent-result", "key": key,
                 "detail": "; ".join(problems[:3]) + " | " + shape}
     nontrivial = n_it >= 2 and any(len(r) >= 2 for r in ref)
